@@ -7,6 +7,7 @@ single-point corruption) is fed to both ResponseData types: CBMC decides that th
 against the same oracle.  Extern enums and the serde path are outside.
 """
 import krun
+import abstract_common as AC
 
 PROP = 'C09'
 
@@ -24,4 +25,4 @@ def main():
         assumptions=['SV / CheckSer harness models mirror serde_json::Value (validated natively on every run)',
                      'option pairs: normalization none vs rust; default vs (extra derives, pub(crate), custom_scalars_module)',
                      'payload shapes and operations as in C01 / C03'],
-        jobs=6)
+        jobs=6, pre=lambda out: AC.part(PROP, out, with_render=False))
